@@ -1,8 +1,23 @@
 from harness.props import base
 from harness import preds
-LEVEL = 'other'
-VFILES = ['Engine.v'] 
-EXPLANATION = 'conformance predicate (DESIGN.md C05 conventions) on implementation trees + parse correspondence; table obligations of C08 give that the automata are the rules.'
+from harness import impl, streams
+LEVEL = 'proof'
+VFILES = ['Engine.v', 'LL1.v', 'LL1Inst.v', 'LL1Engine.v', 'EngineSound.v', 'Properties/C05.v']
+TECHNIQUE = ('Coq soundness proof of the plan-driven LL(1) engine (invariant: every stack frame holds derivations that drive its rule automaton; verified boolean '
+             'checkers over the regenerated tables, one vm_compute obligation per grammar) + refinement to the extracted Engine model + parse/plans correspondence '
+             '+ conformance predicate search on implementation trees')
+EXPLANATION = ('Proved for every shipped grammar (gen/LL1_<v>.v: tables_sound_ok by vm_compute on the regenerated automata and plan tables, C05_sound_<v>) and in general '
+               '(Properties/C05.v): whatever the strict parser of the Engine model accepts without the missing-newline repair is convert_node of the collapsed form of a '
+               'derivation d with wf d (every node names a rule, is non-empty and its children drive that rule\'s automaton from start to a final state) and yield d = the '
+               'token word; the strict parser returns the same tree, and (C07) so does the recovering one. With the C08 obligations (automata = EBNF rules) each node is a '
+               'complete instance of its rule; single-child collapse and the suite / parameter conventions are `collapse` / `convert_node`. C05_partial: runs using the '
+               'missing-newline repair and the confinement of error nodes/leaves in recovering mode are decided by the conformance predicate (DESIGN.md C05 conventions) '
+               'on implementation trees and by the parse correspondence.')
+LEVEL_TEXT = EXPLANATION
+
+
+def ll1_files():
+    return ['gen/LL1_%s.v' % impl.vn(v) for v in streams.versions()]
 
 
 def pred(v, code, m):
@@ -10,4 +25,4 @@ def pred(v, code, m):
 
 
 def run(ctx, b, drv):
-    base.std_text_check(ctx, b, drv, VFILES + base.rules_files(), ['parse', 'plans'], pred, 2000, 1500, 'c05')
+    base.std_text_check(ctx, b, drv, VFILES + base.rules_files() + ll1_files(), ['parse', 'plans'], pred, 2000, 1500, 'c05')
